@@ -199,7 +199,15 @@ impl<R: BufRead> PacketBodyReader<R> {
                             LimitedReader::Partial(r) => {
                                 // new round
                                 let mut source = r.into_inner();
-                                let packet_length = PacketLength::try_from_reader(&mut source)?;
+                                // A missing length here means the packet was cut off. That is not an
+                                // end of the stream, so it must not surface as `UnexpectedEof`.
+                                let packet_length = PacketLength::try_from_reader(&mut source)
+                                    .map_err(|err| match err.kind() {
+                                        io::ErrorKind::UnexpectedEof => io::Error::other(
+                                            "Partial body ended without a final chunk",
+                                        ),
+                                        _ => err,
+                                    })?;
 
                                 let source = match packet_length {
                                     PacketLength::Fixed(len) => {
